@@ -117,6 +117,79 @@ def register(M):
         return a.kind
     B['kind'] = b_kind
 
+    # ---- acyclicity: opaque predicate over the reified matrix, with explicit elimination / introduction
+    TOK = z3.DeclareSort('MatrixToken')
+    ACYC = z3.Function('acyclic', TOK, z3.BoolSort())
+    RK = z3.Function('rank', TOK, z3.IntSort(), z3.IntSort())
+
+    def token_of(a, st):
+        """a constant standing for the matrix value; tokens of entry-wise equal matrices are equal (extensionality, pairwise)"""
+        reg = st.ghost.get('tokens', ())
+        for (t, a2) in reg:
+            if a2.get is a.get and a2.shape == a.shape:
+                return t
+        t = z3.Const(fresh_name('M'), TOK)
+        i, j = bvar('i'), bvar('j')
+        for (t2, a2) in reg:
+            same = AND(M.shape_eq(a.shape, a2.shape),
+                       forall([i, j], IMPLIES(AND(in_range(i, 0, a.shape[0]), in_range(j, 0, a.shape[1])), EQ(num(a.get(i, j)), num(a2.get(i, j))))))
+            st.assume(IMPLIES(same, t == t2))
+        st.ghost['tokens'] = tuple(reg) + ((t, a),)
+        return t
+
+    def b_acyclic(args, kw, st, node):
+        a = M.as_arr(st, args[0])
+        tok, n = token_of(a, st), Z(a.shape[0])
+        t = ACYC(tok)
+        u, v = bvar('u'), bvar('v')
+        # elimination (definition): an acyclic graph has a ranking along which every edge increases
+        st.assume(z3.Implies(t, forall([u, v], IMPLIES(AND(in_range(u, 0, n), in_range(v, 0, n), NOT(EQ(a.get(u, v), 0))), RK(tok, u) < RK(tok, v)))))
+        ex.use('DEF:acyclic(A) := exists ranking r with r(u) < r(v) on every edge (skolemised elimination)')
+        return t
+    B['acyclic'] = b_acyclic
+
+    def b_rank(args, kw, st, node):
+        a = M.as_arr(st, args[0])
+        return RK(token_of(a, st), Z(num(args[1])))
+    B['rank'] = b_rank
+
+    def b_acyclic_if_ranked(args, kw, st, node):
+        """introduction: acyclic_if_ranked(A, r) with r a lambda x: int  -- (forall edges r(u)<r(v)) => acyclic(A)"""
+        a = M.as_arr(st, args[0])
+        r = args[1]
+        tok, n = token_of(a, st), Z(a.shape[0])
+        u, v = bvar('u'), bvar('v')
+        ru, rv = ex.call(r, [u], {}, st, node), ex.call(r, [v], {}, st, node)
+        ranked = forall([u, v], IMPLIES(AND(in_range(u, 0, n), in_range(v, 0, n), NOT(EQ(a.get(u, v), 0))), Z(ru) < Z(rv)))
+        ex.use('DEF:acyclic introduction with an explicit ranking witness')
+        return z3.Implies(ranked, ACYC(tok))
+    B['acyclic_if_ranked'] = b_acyclic_if_ranked
+
+    def b_acyclic_if_ordered(args, kw, st, node):
+        """introduction with witness r(u) = position of u in L:  L lists every node exactly once and every edge points forward => acyclic(A)"""
+        a = M.as_arr(st, args[0])
+        L = st.deref(args[1])
+        tok, n = token_of(a, st), Z(a.shape[0])
+        k, k2, u = bvar('k'), bvar('k'), bvar('u')
+        covers = forall([u], IMPLIES(in_range(u, 0, n), list_contains(L, u)))
+        inrange = forall([k], IMPLIES(in_range(k, 0, L.n), in_range(L.get(k), 0, n)))
+        fwd = forall([k, k2], IMPLIES(AND(in_range(k, 0, L.n), in_range(k2, 0, L.n), NOT(EQ(a.get(L.get(k), L.get(k2)), 0))), k < k2))
+        ex.use('DEF:acyclic introduction with an explicit ranking witness')
+        return z3.Implies(AND(covers, inrange, list_distinct(L), fwd), ACYC(tok))
+    B['acyclic_if_ordered'] = b_acyclic_if_ordered
+
+    def b_least_exists(args, kw, st, node):
+        """L-MIN (Lean: Finset.exists_min_image): a non-empty finite set {x | P x} has a key-minimal element"""
+        P, key = args
+        x, m, w = bvar('x'), bvar('m'), bvar('w')
+        Px = ex.truth(ex.call(P, [x], {}, st, node), st)
+        Pm = ex.truth(ex.call(P, [m], {}, st, node), st)
+        Pw = ex.truth(ex.call(P, [w], {}, st, node), st)
+        km, kw_ = ex.call(key, [m], {}, st, node), ex.call(key, [w], {}, st, node)
+        ex.use('L-MIN:non-empty finite set has a minimal element (Lean: Lemmas.finite_min)')
+        return IMPLIES(exists([x], Px), exists([m], AND(Pm, forall([w], IMPLIES(Pw, Z(km) <= Z(kw_))))))
+    B['least_exists'] = b_least_exists
+
     def b_fresh(args, kw, st, node):
         return True
     B['is_fresh'] = b_fresh
